@@ -633,7 +633,26 @@ KNOWN_COMMANDS = {"set-logic", "set-option", "set-info", "declare-sort", "define
                   "define-fun", "push", "pop", "assert", "check-sat", "check-sat-assuming", "get-assertions", "get-proof",
                   "get-unsat-core", "get-value", "get-assignment", "get-option", "get-info", "get-model", "exit", "reset",
                   "reset-assertions", "echo", "define-fun-rec", "define-funs-rec", "get-unsat-assumptions", "declare-datatype",
-                  "declare-datatypes"}
+                  "declare-datatypes",
+                  # optimisation extension (OptiMathSAT / z3 command set, as accepted by pySMT)
+                  "maximize", "minimize", "minmax", "maxmin", "assert-soft", "get-objectives", "check-allsat",
+                  "load-objective-model", "set-model"}
+
+
+def _attributes(items):
+    """:key [value] pairs after the term of a command -> dict (flags map to True)"""
+    out = {}
+    i = 0
+    while i < len(items):
+        k = items[i]
+        _need(isinstance(k, Atom) and k.kind == "kw", "attribute keyword expected, got %r" % (k,))
+        if i + 1 < len(items) and not (isinstance(items[i + 1], Atom) and items[i + 1].kind == "kw"):
+            out[k.text] = items[i + 1]
+            i += 2
+        else:
+            out[k.text] = True
+            i += 1
+    return out
 
 
 def read_script(text):
@@ -735,6 +754,22 @@ def run_command(s, rd, c):
                 lits.append(t)
             s.checks += 1
             s.commands.append((name, tuple(lits)))
+        elif name in ("maximize", "minimize"):
+            _need(len(c) >= 2, "%s needs a term" % name)
+            t, so = rd.term(c[1], {})
+            _need(so in (INT, REAL) or so[0] == "BV", "objective of sort %s" % (so,))
+            opts = _attributes(c[2:])
+            s.commands.append((name, (t, opts)))
+        elif name == "assert-soft":
+            _need(len(c) >= 2, "assert-soft needs a formula")
+            t, so = rd.term(c[1], {})
+            _need(so == BOOL, "soft clause of sort %s" % (so,))
+            opts = _attributes(c[2:])
+            if ":weight" in opts:
+                wt, wso = rd.term(opts[":weight"], {})
+                _need(wso in (INT, REAL), "weight of sort %s" % (wso,))
+                opts[":weight"] = wt
+            s.commands.append((name, (t, opts)))
         elif name in ("define-sort", "define-fun-rec", "define-funs-rec", "declare-datatype", "declare-datatypes"):
             raise SmtError("command %s not covered by the reference reader" % name, unsupported=True)
         else:
